@@ -1,8 +1,224 @@
-/- EmdModel.Kdt — (stub; filled in by the property that owns it) -/
+/-
+  EmdModel.Kdt — model of `emd.cycles.kdt_match` / `_unique_inds` (property C17).
+
+  The KD-tree query is an ORACLE: the model starts from the query result
+  `(D, inds)` (one row per point of `x`, `K` columns; a missing neighbour is padded with
+  distance `inf` — here `none` — and index `ny`).  Everything after the query is modelled
+  step by step:
+
+    for ii in range(K):
+        uni, uni_inds = _unique_inds(inds[:, ii])            -- `U col`
+        ix = [argmin(D[uni_inds[jj], ii]) ...]               -- `closest`
+        closest_uni_inds = [uni_inds[jj][ix[jj]] ...]        -- `closestRows`
+        uni = uni[uni not in selected]                       -- `freeVals`
+        uni_matches[closest_uni_inds] = (inds[closest_uni_inds, ii] in uni)
+        uni_matches[II[:, :ii].sum(axis=1) > 0] = 0          -- `earlier`
+        II[where(uni_matches), ii] = 1                       -- new column of `cols`
+        selected.extend(inds[where(uni_matches), ii])
+    winner = argmax(II, axis=1)
+    final[r] = inds[r, winner[r]] if sum(II[r]) == 1 and winner[r] < ny and inds[r, winner[r]] < ny else -1
+    x_inds = where(final > -1);  y_inds = final[x_inds]
+
+  The per-value occurrence lookup `_unique_inds` is a parameter `U` of the loop so that both the
+  repaired lookup (`uniqueInds`: occurrence ROW NUMBERS) and the lookup of the pinned code
+  (`uniqueIndsSortedPos`: positions in the SORTED COPY, defect D13) are instances.
+-/
 import EmdModel.Protocol
 
 namespace Kdt
 
-def handle (_o : Protocol.Op) : Option String := none
+/-- a distance; `none` is `+inf` (missing neighbour) -/
+abbrev Dist := Option Rat
+
+/-- strict `<` on distances, `inf` largest -/
+def dlt : Dist → Dist → Bool
+  | some a, some b => decide (a < b)
+  | some _, none => true
+  | none, _ => false
+
+/-- `≤` on distances -/
+def dle (a b : Dist) : Bool := !(dlt b a)
+
+/-! ### `_unique_inds` -/
+
+def insertSorted (v : Nat) : List Nat → List Nat
+  | [] => [v]
+  | a :: as => if v ≤ a then v :: a :: as else a :: insertSorted v as
+
+/-- `ar.sort()` -/
+def isort : List Nat → List Nat
+  | [] => []
+  | a :: as => insertSorted a (isort as)
+
+/-- `ar[mask]` with `mask[0] = True, mask[1:] = ar[1:] != ar[:-1]` -/
+def dedupAdj : List Nat → List Nat
+  | [] => []
+  | [a] => [a]
+  | a :: b :: rest => if a = b then dedupAdj (b :: rest) else a :: dedupAdj (b :: rest)
+
+/-- positions of `v` in a list: `np.where(ar == v)[0]` -/
+def positionsOf (ar : List Nat) (v : Nat) : List Nat :=
+  ar.zipIdx.filterMap fun (a, p) => if a == v then some p else none
+
+/-- the distinct values of a column, ascending -/
+def uniqueVals (col : List Nat) : List Nat := dedupAdj (isort col)
+
+/-- repaired `_unique_inds`: each distinct value with the ROWS of the column that hold it -/
+def uniqueInds (col : List Nat) : List (Nat × List Nat) :=
+  (uniqueVals col).map fun v => (v, positionsOf col v)
+
+/-- pinned `_unique_inds` (D13): each distinct value with its positions in the SORTED COPY -/
+def uniqueIndsSortedPos (col : List Nat) : List (Nat × List Nat) :=
+  (uniqueVals col).map fun v => (v, positionsOf (isort col) v)
+
+/-! ### closest claimant (`np.argmin` = first minimum) -/
+
+def closestFrom (d : Nat → Dist) (best : Nat) : List Nat → Nat
+  | [] => best
+  | r :: rs => closestFrom d (if dlt (d r) (d best) then r else best) rs
+
+def closest (d : Nat → Dist) : List Nat → Option Nat
+  | [] => none
+  | r :: rs => some (closestFrom d r rs)
+
+/-! ### the column loop -/
+
+structure St where
+  /-- processed columns of the marker matrix `II`, left to right; each has `nx` entries -/
+  cols : List (List Bool)
+  selected : List Nat
+
+/-- `II[:, :ii].sum(axis=1) > 0` at row `r` -/
+def earlier (cols : List (List Bool)) (r : Nat) : Bool := cols.any fun c => c[r]!
+
+/-- rows given by `closest_uni_inds` -/
+def closestRows (U : List Nat → List (Nat × List Nat)) (nx : Nat) (col : Nat → Nat) (d : Nat → Dist) : List Nat :=
+  (U ((List.range nx).map col)).filterMap fun p => closest d p.2
+
+/-- `uni` after removing previously selected values -/
+def freeVals (U : List Nat → List (Nat × List Nat)) (nx : Nat) (col : Nat → Nat) (selected : List Nat) : List Nat :=
+  ((U ((List.range nx).map col)).map (·.1)).filter fun v => !(selected.contains v)
+
+/-- is row `r` marked in the column being processed?  `cr` = `closest_uni_inds`, `fv` = remaining `uni` -/
+def markNow (cr fv : List Nat) (cols : List (List Bool)) (col : Nat → Nat) (r : Nat) : Bool :=
+  cr.contains r && fv.contains (col r) && !(earlier cols r)
+
+def stepCol (U : List Nat → List (Nat × List Nat)) (nx : Nat) (col : Nat → Nat) (d : Nat → Dist) (s : St) : St :=
+  let cr := closestRows U nx col d
+  let fv := freeVals U nx col s.selected
+  { cols := s.cols ++ [(List.range nx).map (markNow cr fv s.cols col)],
+    selected := s.selected ++ ((List.range nx).filter (markNow cr fv s.cols col)).map col }
+
+def runCols (U : List Nat → List (Nat × List Nat)) (nx : Nat) (indsAt : Nat → Nat → Nat) (dAt : Nat → Nat → Dist) (K : Nat) : St :=
+  (List.range K).foldl (fun s c => stepCol U nx (fun r => indsAt r c) (fun r => dAt r c) s) ⟨[], []⟩
+
+/-! ### winner extraction -/
+
+/-- `II[r, :]` -/
+def rowMarks (cols : List (List Bool)) (r : Nat) : List Bool := cols.map fun c => c[r]!
+
+/-- `np.argmax` of a 0/1 row: first 1, or 0 when there is none -/
+def winner (m : List Bool) : Nat := if m.contains true then m.idxOf true else 0
+
+/-- `final[r]` (`none` = -1) -/
+def finalOf (ny : Nat) (indsAt : Nat → Nat → Nat) (cols : List (List Bool)) (r : Nat) : Option Nat :=
+  let m := rowMarks cols r
+  let w := winner m
+  if m.count true == 1 && decide (w < ny) && decide (indsAt r w < ny) then some (indsAt r w) else none
+
+def matchWith (U : List Nat → List (Nat × List Nat)) (nx ny K : Nat) (indsAt : Nat → Nat → Nat) (dAt : Nat → Nat → Dist) :
+    List Nat × List Nat :=
+  let cols := (runCols U nx indsAt dAt K).cols
+  let xs := (List.range nx).filter fun r => (finalOf ny indsAt cols r).isSome
+  (xs, xs.filterMap (finalOf ny indsAt cols))
+
+/-! ### list-level entry points -/
+
+def indsAt (inds : List (List Nat)) (r c : Nat) : Nat := (inds[r]!)[c]!
+def dAt (D : List (List Dist)) (r c : Nat) : Dist := (D[r]!)[c]!
+
+/-- `kdt_match` after the query, with occurrence lookup `U` -/
+def kdtMatchWith (U : List Nat → List (Nat × List Nat)) (D : List (List Dist)) (inds : List (List Nat)) (ny K : Nat) :
+    List Nat × List Nat :=
+  matchWith U inds.length ny K (indsAt inds) (dAt D)
+
+/-- the repaired code -/
+def kdtMatch (D : List (List Dist)) (inds : List (List Nat)) (ny K : Nat) : List Nat × List Nat :=
+  kdtMatchWith uniqueInds D inds ny K
+
+/-- the pinned code (D13) -/
+def kdtMatchSortedPos (D : List (List Dist)) (inds : List (List Nat)) (ny K : Nat) : List Nat × List Nat :=
+  kdtMatchWith uniqueIndsSortedPos D inds ny K
+
+/-! ### the contract of the query oracle, as an executable check
+
+`cKDTree(y).query(x, k=K, distance_upper_bound=b)`: `nx` rows of `K` entries; an entry is either a
+real neighbour (index `< ny`, finite distance `≥ 0` and `≤ b`) or padding (index `ny`, distance `inf`);
+distances are non-decreasing along a row (so padding comes last); real neighbours of a row are distinct. -/
+
+def rowOk (ny K : Nat) (bound : Dist) (drow : List Dist) (irow : List Nat) : Bool :=
+  drow.length == K && irow.length == K &&
+  (List.range K).all (fun c =>
+    decide (irow[c]! ≤ ny) &&
+    (decide (irow[c]! < ny) == (drow[c]!).isSome) &&
+    dle (some 0) (drow[c]!) &&
+    ((drow[c]!).isNone || dle (drow[c]!) bound) &&
+    (decide (c + 1 < K) → dle (drow[c]!) (drow[c + 1]!)) &&
+    (List.range c).all fun c' => decide (irow[c']! < ny) → irow[c']! != irow[c]!)
+
+def wfCheck (D : List (List Dist)) (inds : List (List Nat)) (ny K : Nat) (bound : Dist) : Bool :=
+  D.length == inds.length &&
+  (List.range inds.length).all fun r => rowOk ny K bound (D[r]!) (inds[r]!)
+
+/-! ### protocol -/
+open Protocol
+
+/-- split a flat row-major vector into rows of width `k` (`k > 0`) -/
+def chunk {α : Type} (k : Nat) (xs : List α) : List (List α) :=
+  if _h : k = 0 ∨ xs = [] then [] else
+    xs.take k :: chunk k (xs.drop k)
+termination_by xs.length
+decreasing_by
+  have : xs ≠ [] := fun e => _h (Or.inr e)
+  have : 0 < xs.length := List.length_pos_iff.mpr this
+  simp only [List.length_drop]; omega
+
+/-- distances arrive as non-negative rationals; `-1` stands for `inf` -/
+def toDist? (r : Rat) : Option Dist :=
+  if r = -1 then some none else if 0 ≤ r then some (some r) else none
+
+/--
+  `KDT uniq=rows|sortedpos nx=.. ny=.. k=.. bound=<rat>|inf | D row-major (inf as -1) | inds row-major`
+  → `ok wf=0|1 n=<matches> | x_inds | y_inds`, `err ValueError` for `k = 0` (the query itself raises).
+-/
+def handle (o : Op) : Option String :=
+  match o.name with
+  | "KDT" => some <| Id.run do
+      let some uq := o.str? "uniq" | return "bad-op"
+      let some nx := o.nat? "nx" | return "bad-op"
+      let some ny := o.nat? "ny" | return "bad-op"
+      let some k := o.nat? "k" | return "bad-op"
+      let some bs := o.str? "bound" | return "bad-op"
+      let bound : Dist ← if bs = "inf" then pure none else
+        match parseRat? bs with
+        | some b => pure (some b)
+        | none => return "bad-op"
+      let some dv := o.vec? 0 | return "bad-op"
+      let some iv := o.vec? 1 | return "bad-op"
+      let some iflat := toNats? iv | return "bad-op"
+      let some dflat := dv.mapM toDist? | return "bad-op"
+      if nx = 0 ∨ ny = 0 then return "bad-op"
+      if k = 0 then return "err ValueError"
+      if dflat.length ≠ nx * k ∨ iflat.length ≠ nx * k then return "bad-op"
+      let D := chunk k dflat
+      let inds := chunk k iflat
+      if D.length ≠ nx ∨ inds.length ≠ nx then return "bad-op"
+      let U ← match uq with
+        | "rows" => pure uniqueInds
+        | "sortedpos" => pure uniqueIndsSortedPos
+        | _ => return "bad-op"
+      let (xs, ys) := kdtMatchWith U D inds ny k
+      return s!"ok wf={fmtBool (wfCheck D inds ny k bound)} n={xs.length} | {fmtNats xs} | {fmtNats ys}"
+  | _ => none
 
 end Kdt
